@@ -469,7 +469,7 @@ Definition lop_of (o : lcase) : option lop :=
   | 5 => Some (LDie (N.to_nat a))
   | 6 => Some LMgrDie
   | 7 => Some (LRemoteClose c)
-  | 9 => Some (LRace c)
+  | 9 => Some (LRace a c)
   | _ => None
   end.
 
@@ -496,7 +496,7 @@ Definition lstep_trace (n : nat) (s : lst) (o : lcase) : lst * list N :=
       let rc := rc_of s lo in
       let f := fst (snd (snd (snd o))) in
       let '(s1, ns) := lstep s lo in
-      let arm := if (rc =? 0) && negb (arm_allowed lo) then 999
+      let arm := if (rc =? 0) && negb (arm_allowed s lo) then 999
                  else exit_arm (l_task s) (events_of s lo) in
       (s1, lrecord n rc (early_obs n s s1 f) ns (l_task s1) arm)
   end.
@@ -517,14 +517,18 @@ Definition loop_trace (n : nat) (fbmask dead0 : N) (ops : list lcase) : list N :
   lrecord n 0 (0, 0) ns1 (l_task s1) (exit_arm (l_task s0) (settle_events s0)) ++
   lrun_trace n s1 ops.
 
-Definition p_lop : parser lcase :=
+(* `hold`: the case runs with a long substream-open timeout, b = 4 (the remote never answers and nobody
+   waits for the timeout) is allowed and b = 3 (wait for the timeout) is not *)
+Definition p_lop (hold : bool) : parser lcase :=
   let* op := pN in let* a := pN in let* b := pN in let* f := pN in let* c := pN in
-  if ((1 <=? op) && (op <=? 7)) || (op =? 9) then pret (op, (a, (b, (f, c)))) else pfail.
+  if (((1 <=? op) && (op <=? 7)) || (op =? 9)) &&
+     (if (op =? 1) || (op =? 2) then if hold then negb (b =? 3) else negb (b =? 4) else true)
+  then pret (op, (a, (b, (f, c)))) else pfail.
 
 Definition decode_loop (l : list N) : option (nat * (N * (N * list lcase))) :=
   pall (let* tr := pN in let* n := pN in let* fb := pN in let* d0 := pN in let* cap := pN in
-        let* ops := plist p_lop in
-        if (tr <? 2) && (1 <=? n) && (n <=? 4) && (fb <? 16) && (d0 <? 16) && (1 <=? cap) && (cap <=? 64) &&
+        let* ops := plist (p_lop (N.testbit tr 1)) in
+        if (tr <? 4) && (1 <=? n) && (n <=? 4) && (fb <? 16) && (d0 <? 16) && (1 <=? cap) && (cap <=? 64) &&
            (N.of_nat (length ops) <=? 40)
         then pret (N.to_nat n, (fb, (d0, ops))) else pfail) l.
 
@@ -778,7 +782,7 @@ Definition p_lrec (n : nat) : parser lrec :=
   let* rc := pN in let* ed := pN in let* em := pN in let* ev := prep n (plist pN) in
   let* m := pN in let* st := pN in let* arm := pN in pret (mkLR rc ed em ev m st arm).
 
-Record ost := mkO { o_alive : list bool; o_mgr : bool; o_handle : list bool; o_ended : N }.
+Record ost := mkO { o_alive : list bool; o_mgr : bool; o_handle : list bool; o_ended : N; o_pend : nat }.
 
 Definition count_k (k : N) (l : list N) : nat := length (filter (N.eqb k) l).
 Definition only_kinds (ks : list N) (l : list N) : bool := forallb (fun x => existsb (N.eqb x) ks) l.
@@ -799,9 +803,12 @@ Definition lstep_ok (n : nat) (tbl : list Names.proto) (o : ost) (c : lcase) (r 
   let h1 := if (op =? 4) && (ai <? n)%nat then set_nth ai false (o_handle o)
             else if (op =? 9) && (r_rc r =? 0) then map (fun _ => false) (o_handle o) else o_handle o in
   let ends := negb (r_state r =? 0) && was_running in
+  (* a negotiation the remote never answers keeps a permit: the connection stays open for it *)
+  let nopend := (o_pend o =? 0)%nat in
+  let pend1 := if ((op =? 1) || (op =? 2)) && (r_rc r =? 0) && (b =? 4) then S (o_pend o) else o_pend o in
   let cause :=
-    ((op =? 3) && (r_rc r =? 0)) || ((op =? 7) && (r_rc r =? 0)) || ((op =? 9) && (r_rc r =? 0)) ||
-    ((op =? 4) && negb (existsb (fun x => x) h1)) in
+    ((op =? 3) && (r_rc r =? 0)) || ((op =? 7) && (r_rc r =? 0)) || ((op =? 9) && (r_rc r =? 0) && nopend) ||
+    ((op =? 4) && negb (existsb (fun x => x) h1) && nopend) in
   let kk : N := if b =? 0 then 4 else 5 in
   let ok :=
     (* established is told at accept only *)
@@ -824,7 +831,7 @@ Definition lstep_ok (n : nat) (tbl : list Names.proto) (o : ost) (c : lcase) (r 
        (* it goes on: nobody is told closed, and every termination cause would have ended it *)
        none_of 2 (r_ev r) && (r_mgr r =? 0) && negb cause && (r_arm r =? 0) && (r_ed r =? 0) && (r_em r =? 0) &&
        (* the remaining protocols keep using it *)
-       (if (op =? 1) && (r_rc r =? 0) && nth ai al1 false
+       (if (op =? 1) && (r_rc r =? 0) && nth ai al1 false && negb (b =? 4)
         then (count_k kk (nth ai (r_ev r) []) =? 1)%nat else true) &&
        (if (op =? 2) && (r_rc r =? 0) && (b =? 0)
         then match negotiated tbl a with
@@ -832,7 +839,7 @@ Definition lstep_ok (n : nat) (tbl : list Names.proto) (o : ost) (c : lcase) (r 
              | None => true
              end
         else true)) in
-  if ok then Some (mkO al1 mgr1 h1 (if was_running then r_state r else o_ended o)) else None.
+  if ok then Some (mkO al1 mgr1 h1 (if was_running then r_state r else o_ended o) pend1) else None.
 
 Fixpoint lrun_ok (n : nat) (tbl : list Names.proto) (o : ost) (cs : list lcase) (rs : list lrec) : bool :=
   match cs, rs with
@@ -851,7 +858,7 @@ Definition loop_ok (n : nat) (fb d0 : N) (ops : list lcase) (est : list (list N)
   (if existsb (fun x => x) al
    then (r_state r0 =? 0) && all_silent (r_ev r0) && (r_mgr r0 =? 0)
    else negb (r_state r0 =? 0) && all_silent (r_ev r0) && (r_mgr r0 =? 1)) &&
-  lrun_ok n (mk_tbl n fb) (mkO al true al (r_state r0)) ops rs.
+  lrun_ok n (mk_tbl n fb) (mkO al true al (r_state r0) 0) ops rs.
 
 Definition pst_init (n : nat) : pst :=
   mkP (repeat false (n + 2), repeat false (n + 2)) (repeat true (n + 3), repeat true (n + 3)) true.
